@@ -609,6 +609,11 @@ pub fn process<I: BufRead, O: Write>(
                     } else {
                         let mut rex = format!("\\b{}\\(", mcro);
                         let params = caps.get(2).unwrap().as_str();
+                        // Matching a use costs memory in the square of the number of parameters
+                        // (779 MB for 900 of them): C guarantees 127
+                        if params.split(',').count() > 127 {
+                            return Err(too_complex());
+                        }
                         if !params.is_empty() {
                             for v in caps.get(2).unwrap().as_str().split(',') {
                                 let vx = v.trim_start();
